@@ -669,11 +669,14 @@ def run(ctx):
             if forms == {'above', 'below'} and len(names) == 1:
                 return names.pop()
         return None
+    # the threshold is a condition on the way to the construction of the real
+    # determinant (nested or as an early `continue`), on the value it is built from
+    dets = [c for c in calls_in(iad) if call_name(c) == 'Determinant' and len(c.args) == 2]
     ok = False
-    if len(flt) == 1:
-        x = symmetric_threshold(flt[0].test)
-        dets = [c for c in calls_in(flt[0]) if call_name(c) == 'Determinant' and len(c.args) == 2]
-        ok = x is not None and len(dets) == 1 and norm(dets[0].args[1]) == x
+    if len(dets) == 1:
+        for e, pol in facts_at(dets[0], iad):
+            if pol and symmetric_threshold(e) == norm(dets[0].args[1]):
+                ok = True
     ctx.ob('C16.R3', 'iterative:symmetric-threshold', ok,
            'iterative determinants are kept by a threshold on |value| (both partners alike)',
            imod, flt[0] if flt else iad)
